@@ -74,6 +74,14 @@ def arity_shapes():
 
 BODIES = [
     # (source, calls)
+    # variadic functions whose body never names the rest slot (the slot must exist all the same)
+    ("(fn [x & more] x)", ["[1]", "[1 2 3]"]),
+    ("(fn [& rest] nil)", ["[]", "[1 2]"]),
+    ("(fn [& rest] 7)", ["[]", "[1]"]),
+    ("(fn [x &opt y & more] x)", ["[1]", "[1 2 3 4]"]),
+    ("(fn [x &keys ks] x)", ["[1]", "[1 :a 2]"]),
+    ("(fn [x &named a b] x)", ["[1]", "[1 :a 2]"]),
+    ("(fn outer [x] (def inner (fn [y & more] y)) (inner x 2 3))", ["[5]"]),
     ("(fn [a b] (+ (* a 2) b))", ["[1 2]", "[0.5 -1]", '["x" 1]', "[2147483647 1]"]),
     ("(fn [a b] (if (< a b) [:lt a] (if (= a b) :eq [:gt b])))", ["[1 2]", "[2 2]", "[3 2]", '["a" "b"]']),
     ("(fn [n] (var s 0) (for i 0 n (+= s i)) s)", ["[0]", "[1]", "[10]", "[1000]"]),
